@@ -92,16 +92,22 @@ def run_c06(rep, tier, seed):
     model_lines = ["srv.start"]
     cases = []        # (kind, first impl line, n impl lines, model line index, reqs)
     m = {}
-    for ci in range(ncases):
+    bigcases = [70000, 100000] if tier == "quick" else [8192, 16384, 65536, 70000, 100000, 200000]
+    for ci in range(ncases + len(bigcases)):
         reqs = [gen_req(rng) for _ in range(rng.choice([1, 2, 3, 5, 9]))]
+        if ci >= ncases:
+            # a large request with further requests already buffered behind it
+            reqs = [("SET", b"big", bytes([rng.getrandbits(8)]) * bigcases[ci - ncases]), ("GET", b"k"), ("SET", b"k", b"after-big"), ("GET", b"k"), ("DEL", [b"big", b"big"])]
         data = b"".join(req_bytes(r) for r in reqs)
         expected = b"".join(apply_req(m, r) for r in reqs)
-        mode = rng.choice(["serve", "serve", "pipeline"])
+        mode = rng.choice(["serve", "serve", "pipeline"]) if ci < ncases else "serve"
         if mode == "serve":
             choices = segmentations(rng, data, k=3)
             if len(data) <= 48:
                 choices += every_single_cut(data)[:40]
             segs = rng.choice(choices)
+            if ci >= ncases:
+                segs = rng.choice([[data], [data[i:i + 1000] for i in range(0, len(data), 1000)]])
             if len(data) <= 300 and rng.random() < 0.3:
                 segs = [data[i:i + 1] for i in range(len(data))]
             cases.append(("serve", len(impl_lines), 1, len(model_lines), reqs, expected))
